@@ -551,7 +551,9 @@ where
     if !run.wants(&name) {
         return;
     }
-    let thorough = run.tier.is_thorough();
+    // full 24 x 24 boundary product on the FFT64 backends in the thorough tier; the NTT120 backends are ~30x slower
+    // per operation and replay the 4 x 4 quick set
+    let thorough = run.tier.is_thorough() && B::FAMILY == pvc_common::Family::Fft64;
     let (a_set, b_set): (Vec<u32>, Vec<u32>) = if thorough { (BOUNDARY.to_vec(), BOUNDARY.to_vec()) } else { (QUICK_A.to_vec(), QUICK_B.to_vec()) };
     let mut values = a_set.clone();
     for b in &b_set {
@@ -599,7 +601,7 @@ pub fn run(run: &mut Run, tables: &[Table]) {
     ));
     if host_has_avx() {
         fam_bind::<FFT64Avx>(run, tables, n);
-        if run.tier.is_thorough() {
+        if run.tier.is_thorough() || std::env::var("VERIF_C13_ALL_BACKENDS").is_ok() {
             fam_bind::<FFT64Ref>(run, tables, n);
             fam_bind::<NTT120Avx>(run, tables, n);
             fam_bind::<NTT120Ref>(run, tables, n);
